@@ -107,7 +107,32 @@ func init() {
 			return c
 		}
 		nArch := 20 * c.Scale
-		for a := 0; a < nArch; a++ {
+		// one archive with more sections than any batching inside LoadIndex could hold (> 2^14, and in
+		// the thorough tier > 2^16), judged by layer B: every section resolvable through the index
+		{
+			r := c.R.Fork()
+			ns := []int{16384 + 1 + r.Intn(700), 16384 + 1 + r.Intn(700)}
+			if c.Thorough {
+				ns = append(ns, 16384, 32768+r.Intn(50), 65536+1+r.Intn(500))
+			}
+			for k, n := range ns {
+				o := defaultXOpts
+				o.maxSeek = fileSeek
+				o.storeID = r.Chance(30)
+				o.codec = pick(r, []uint64{0, 0x0400, 0x0401})
+				if k < 2 {
+					o.codec = []uint64{0x0400, pick(r, []uint64{0, 0x0401})}[k] // both index kinds in every run
+				}
+				seed := r.U64() >> 1
+				idEvery := pick(r, []int{0, 9, 50})
+				in := VL{o.val(), VN(uint64(n)), VN(seed), VN(uint64(idEvery))}
+				obs := runWrapManyImpl(c, o, n, seed, idEvery)
+				c.Emit("xwrapmany", in, obs, true)
+				c.Count("wrapmany:archives")
+				c.CountN("wrapmany:sections", n)
+			}
+		}
+		for a := 0; a < nArch && !c10Stuck; a++ {
 			r := c.R.Fork()
 			nb := r.Intn(6)
 			g := genOpts{identity: true, maxData: 300}
@@ -192,11 +217,18 @@ func init() {
 			}
 
 			// ---------------- wrap ----------------
+			var c10Existing []byte // content of the file already at the destination path (mode 2)
 			emitWrap := func(o xOpts, mode uint64, x []byte, expect Val, nontrivial bool) Val {
+				if c10Stuck {
+					return VL{VT("timeout")}
+				}
 				in := VL{o.val(), VN(mode), VB(x), tabFor(x, string(expect.(VL)[0].(VT)) != "none"), expect}
 				var existing []byte
 				if mode == 2 {
-					existing = r.Bytes(r.Intn(2*len(x) + 200))
+					existing = c10Existing
+					if existing == nil {
+						existing = r.Bytes(r.Intn(2*len(x) + 200))
+					}
 					in = append(in, VB(existing))
 				}
 				obs := runWrapImpl(c, o, mode, x, existing)
@@ -213,8 +245,24 @@ func init() {
 			emitWrap(fileOpts, 1, payload, valid, nt)
 			if !huge {
 				emitWrap(randOpts(memMaxSeek), 0, payload, valid, nt)
-				emitWrap(fileOpts, 2, payload, valid, nt)
+				// destination state: a file is already there -- shorter than, exactly as long as, one
+				// byte longer than, much longer than what is about to be written (os.Create truncates)
+				wl := 51 + len(payload) + len(index)
+				for _, n := range []int{r.Intn(wl), wl, wl + 1, wl + 2 + r.Intn(wl+300)} {
+					c10Existing = r.Bytes(n)
+					emitWrap(fileOpts, 2, payload, valid, nt)
+					switch {
+					case n < wl:
+						c.Count("wrap:dest=existing-shorter")
+					case n == wl:
+						c.Count("wrap:dest=existing-same-length")
+					default:
+						c.Count("wrap:dest=existing-longer")
+					}
+				}
+				c10Existing = nil
 				emitWrap(fileOpts, 3, payload, valid, false)
+				c.Count("wrap:dest=same-path")
 				emitWrap(randOpts(fileSeek), 4, payload, valid, nt)
 			}
 
@@ -228,6 +276,9 @@ func init() {
 				}
 			}
 			emitExtract := func(o xOpts, f []byte, dest Val, expect Val, nontrivial bool) {
+				if c10Stuck {
+					return
+				}
 				in := VL{o.val(), VB(f), dest, tabFor(f, string(expect.(VL)[0].(VT)) == "window"), expect, VN(chunkFor(r, len(f)))}
 				obs := runExtractImpl(c, o, f, dest)
 				c.Emit("xextract", in, obs, nontrivial)
@@ -327,6 +378,9 @@ func init() {
 
 			// ---------------- replace roots ----------------
 			emitReplace := func(o xOpts, f []byte, nr []cid.Cid, expect Val, nontrivial bool) {
+				if c10Stuck {
+					return
+				}
 				in := VL{o.val(), VB(f), rootsVal(nr), tabFor(f, string(expect.(VL)[0].(VT)) == "hdr"), expect}
 				obs := runReplaceImpl(c, o, f, nr)
 				c.Emit("xreplace", in, obs, nontrivial)
